@@ -17,6 +17,7 @@ func cmdChain(args []string) {
 	focus := fs.String("focus", "mixed", "weight set: mixed, ent, reg, stream, fees (comma separated: cycled)")
 	per := fs.Int("shard", 4, "traces per Coq file")
 	props := fs.String("props", "", "comma separated property ids whose Go monitors count (empty = all)")
+	bigexport := fs.Bool("bigexport", false, "also run the 20,001+-record export scenario (slow)")
 	entenum := fs.Int("entenum", 0, "number of small-scope enumeration chains for C03 (0 = none, 216 = all)")
 	fs.Parse(args)
 	seed := seedFromEnv()
@@ -30,6 +31,9 @@ func cmdChain(args []string) {
 
 	var failures []monFailure
 	scenarioFailures := runScenarios()
+	if *bigexport {
+		scenarioFailures = append(scenarioFailures, scenBigExport()...)
+	}
 	for _, f := range scenarioFailures {
 		if len(want) == 0 || want[f.Property] {
 			failures = append(failures, f)
